@@ -3,6 +3,7 @@ import SarpyModel.Drivers.Scatter
 import SarpyModel.Drivers.Poly
 import SarpyModel.Drivers.FieldFmt
 import SarpyModel.Drivers.Layout
+import SarpyModel.Drivers.Sidd
 namespace Sarpy.Drivers
 
 def step (line : String) : String :=
@@ -13,6 +14,7 @@ def step (line : String) : String :=
   | "poly" :: rest => (polyStep rest).getD "bad-op"
   | "nitf" :: rest => (fieldStep rest).getD "bad-op"
   | "layout" :: rest => (layoutStep rest).getD "bad-op"
+  | "sidd" :: rest => (siddStep rest).getD "bad-op"
   | _ => "bad-op"
 
 partial def loop (h : IO.FS.Stream) : IO Unit := do
